@@ -36,6 +36,7 @@ type HarnessResult struct {
 	Unsupported map[string]int     `json:"unsupported,omitempty"`
 	Msgs       map[string]int      `json:"messages,omitempty"`
 	Samples    []string            `json:"samples"`
+	Witnesses  []engine.Violation  `json:"witnesses,omitempty"`
 	Complete   bool                `json:"complete"`
 	Steps      int64               `json:"steps"`
 	MaxSteps   int64               `json:"max_steps"`
@@ -198,6 +199,7 @@ func main() {
 		r.SolverTime = s.SolverTime.Seconds()
 		r.Unsupported = s.Unsupported
 		r.Samples = s.Samples
+		r.Witnesses = s.Witnesses
 		r.Steps = s.Steps
 		r.MaxSteps = s.MaxSteps
 		r.WallS = ends[f].Sub(starts[f]).Seconds()
